@@ -103,8 +103,8 @@ Lemma unpack_loop_fuel_indep bits mk : bits <> 0 ->
   unpack_loop f1 bits mk s acc = unpack_loop f2 bits mk s acc.
 Proof.
   intros Hb.
-  induction f1 as [|f1 IH]; intros f2 s acc Hoff H1 H2; [lia|].
-  destruct f2 as [|f2]; [lia|].
+  induction f1 as [|f1 IH]; intros f2 s acc Hoff H1 H2; [exfalso; exact (Nat.nlt_0_r _ H1)|].
+  destruct f2 as [|f2]; [exfalso; exact (Nat.nlt_0_r _ H2)|].
   cbn [unpack_loop].
   unfold bsr_extract, bsr_available.
   destruct (len (br_buf s) * 8 <? br_off s) eqn:Ea; [reflexivity|].
